@@ -70,6 +70,8 @@ DEFAULT_PROFILE: Dict[str, Any] = {
     'module_reexport': 0.0,   # `from . import sub` with 'sub' in __all__
     'tc_guard': 0.1,          # probability an import sits under `if TYPE_CHECKING:`
     'var_ann': 0.0,           # probability that a variable is annotated with a class visible in its scope
+    'attr_pool': 0.0,         # probability per class that its attributes come from a small name pool, as class variable,
+                              # annotated declaration or instance variable set in __init__ (so that overriding chains arise)
     'max_modules': 9,
 }
 
@@ -207,6 +209,24 @@ class _Gen:
             st['body'].append(m)
         if rng.chance(0.4):
             st['body'].append(self.mk_var(rng, mod, outer=cid))
+        if p.get('attr_pool', 0) and rng.chance(p['attr_pool']):
+            an = rng.choice(self.ATTR_POOL)
+            form = rng.weighted([('ivar', 2), ('cvar', 2), ('decl', 2)])
+            vid = self.fid()
+            if form == 'ivar':
+                fid_ = self.fid()
+                init = {'k': 'func', 'id': fid_, 'name': '__init__', 'deco': None, 'ann': {}, 'ret': None, 'nodoc': True,
+                        'selfattrs': [{'name': an, 'id': vid}]}
+                self.defs[fid_] = {'kind': 'method', 'name': '__init__', 'module': mod, 'outer': cid, 'nodoc': True}
+                self.defs[cid]['members']['__init__'] = fid_
+                st['body'].append(init)
+                self.defs[vid] = {'kind': 'ivar', 'name': an, 'module': mod, 'outer': cid}
+            else:
+                vst = {'k': 'var', 'id': vid, 'name': an, 'ann': None, 'decl_only': form == 'decl'}
+                st['body'].append(vst)
+                self.defs[vid] = {'kind': 'cvar', 'name': an, 'module': mod, 'outer': cid}
+            self.defs[cid]['members'][an] = vid
+            self.cns[cid][an] = ['d', vid]
         if depth == 0 and rng.chance(p['nested']):
             inner = self.mk_class(rng, mod, scope_ns, outer=cid, depth=1)
             st['body'].append(inner)
@@ -275,6 +295,7 @@ class _Gen:
         return out
 
     METHOD_POOL = ['run', 'stop', 'size', 'name_of']
+    ATTR_POOL = ['xa', 'xa', 'xa', 'yb']
 
     def mk_func(self, rng: Rng, mod: str, outer: Optional[int] = None) -> Dict[str, Any]:
         fid_ = self.fid()
@@ -424,7 +445,9 @@ class _Gen:
                 self._vias[(mod, asn)] = target
             else:
                 root = self.root_of(target)
-                if root in ns and ns[root] != ['m', root]:
+                if root in ns and (ns[root] != ['m', root] or self._routes.get((mod, root)) != 'import'):
+                    # the root name is already bound by another kind of statement: binding it again through a
+                    # different route would give one name two recorded origins
                     return None
                 # `import a.b.c` is used as `a.b.c.X`: every prefix must be fully
                 # initialised when the attribute access runs
@@ -523,6 +546,7 @@ class _Gen:
                         if cand:
                             n = rng.choice(cand)
                             cns[n] = list(tns[n])
+                            self.cns_origin.setdefault(st['id'], {})[n] = [t, n]
                             level, rel = self.rel_form(rng, mod, t)
                             st['body'].insert(0, {'k': 'from', 'mod': t, 'level': level, 'rel': rel,
                                                   'names': [[n, None]], 'guard': None})
@@ -762,6 +786,7 @@ class _Gen:
         self._origin: Dict[Tuple[str, str], Tuple[str, str]] = {}
         self.done: List[str] = []
         self.exotic: set = set()
+        self.cns_origin: Dict[int, Dict[str, List[str]]] = {}
         self.docassigned: set = set()
         self.reexport_direct: Dict[int, bool] = {}
         self.method_aliases: List[Tuple[str, str, int]] = []
@@ -792,6 +817,7 @@ class _Gen:
             'vias': {f'{a}:{b}': v for (a, b), v in self._vias.items() if v is not None},
             'origin': {f'{a}:{b}': list(v) for (a, b), v in self._origin.items()},
             'reexport_direct': {str(k): v for k, v in self.reexport_direct.items()},
+            'cns_origin': {str(k): v for k, v in self.cns_origin.items()},
         }
         truth['cyclic'] = has_cycle(list(self.modules), truth['edges'])
         return {'modules': self.modules, 'truth': truth, 'profile': self.p}
@@ -937,7 +963,10 @@ def render_stmt(st: Dict[str, Any], indent: str, out: List[str], in_class: bool 
         out.append(f'{indent}    return None\n')
     elif k == 'var':
         ann = f': {_q(st["ann"])}' if st.get('ann') else ''
-        out.append(f'{indent}{st["name"]}{ann} = "M{st["id"]}M"\n')
+        if st.get('decl_only'):
+            out.append(f'{indent}{st["name"]}: str\n')
+        else:
+            out.append(f'{indent}{st["name"]}{ann} = "M{st["id"]}M"\n')
         if not st.get('nodoc'):
             out.append(_doc(st['id'], st.get('docextra', ''), indent))
     elif k == 'import':
